@@ -4,7 +4,7 @@
    the version index, every git state, --at-least) and both values of --again.
    Executor part: for every well-formed plan and every oracle. *)
 From Coq Require Import List Arith Bool NArith.
-From Conductor Require Import Model.Loader Model.Planner Model.Exec Model.RunCase Proofs.Compose
+From Conductor Require Import Model.Loader Model.Planner Model.Exec Model.RunCase Proofs.Compose Proofs.ComposeRun
   Proofs.ExecInv Proofs.ExecTheorems Proofs.ExecMain Proofs.PlannerInv Proofs.PlannerThm Proofs.PlannerExact.
 Import ListNotations.
 
@@ -79,6 +79,32 @@ Proof.
   destruct (cond_run_plan fuel tasks c loaded ps r H) as (A & B & C & D & _). auto.
 Qed.
 Print Assumptions C02_end_to_end.
+
+(* End to end, on the event list of a complete `cond run` of the composed model: no operation is
+   started twice, every started operation belongs to a needed task, distinct operations are distinct
+   tasks -- so every task is executed AT MOST once and nothing but needed tasks is executed ... *)
+Theorem C02_at_most_once_end_to_end :
+  forall fuel tasks c loaded ps evs,
+  cond_run fuel tasks c = ORun loaded ps (Some evs) -> 1 <= c_jobs c ->
+  (forall pre ox sl post, evs = pre ++ EStart ox sl :: post ->
+     (forall sl', ~ In (EStart ox sl') pre) /\ (forall sl', ~ In (EStart ox sl') post)) /\
+  (forall ox sl, In (EStart ox sl) evs ->
+     ox < length (ops ps) /\
+     Needed (info_of tasks) (sr_of tasks) (c_again c) (c_root c) (op_task (op_at (ops ps) ox))) /\
+  NoDup (map op_task (ops ps)).
+Proof. exact cond_run_started_at_most_once. Qed.
+Print Assumptions C02_at_most_once_end_to_end.
+
+(* ... and EXACTLY once, finishing with status 0, when no task fails *)
+Theorem C02_exactly_once_when_nothing_fails_end_to_end :
+  forall fuel tasks c loaded ps evs,
+  cond_run fuel tasks c = ORun loaded ps (Some evs) -> 1 <= c_jobs c -> c_stop c = false ->
+  (forall o, fails (plan_of ps) (oracle_of (plan_of ps) c) o = false) ->
+  forall t, Needed (info_of tasks) (sr_of tasks) (c_again c) (c_root c) t ->
+  exists o, o < length (ops ps) /\ op_task (op_at (ops ps) o) = t /\
+            (exists sl, In (EStart o sl) evs) /\ In (EFinish o 0%N) evs.
+Proof. exact cond_run_all_needed_run. Qed.
+Print Assumptions C02_exactly_once_when_nothing_fails_end_to_end.
 
 Example C02_nonvacuous :
   match plan_for ex_info (fun _ => true) false 50 0 with
